@@ -30,7 +30,7 @@ fn sample_packet(symbolic_numbers: bool) -> (Packet, u8, u16, u16, [u8; 4], [u8;
     (p, code, n1, n2, v, pay)
 }
 
-//@ props=C19 tier=quick timeout=1500 mem=16 cap=4
+//@ props=C19 tier=quick timeout=1500 mem=4 cap=4
 //@ functions=<Packet as coap_message(0.2)::ReadableMessage>::{code, payload, options}, MessageOptionAdapter::next, 
 //@ bounds=message: any code byte, two symbolic option numbers n1 < n2 in concrete slots with values ([a],[b,c]) and ([d]), and a cleared option (empty value list) at n1+1 in between, 2 symbolic payload bytes
 //@ what=options() yields (n1,[a]) (n1,[b,c]) (n2,[d]) then None - ascending numbers, per-number order, same bytes; code and payload agree with the raw fields
@@ -60,7 +60,7 @@ fn c19_cm_read_02() {
     core::mem::forget(p);
 }
 
-//@ props=C19 tier=quick timeout=1500 mem=16 cap=4
+//@ props=C19 tier=quick timeout=1500 mem=4 cap=4
 //@ functions=<Packet as MinimalWritableMessage>::{set_code, add_option, set_payload, set_from_message}, MessageOptionAdapter::next
 //@ bounds=source message: any code byte, option numbers 11 and 60 (concrete) with symbolic values ([a],[b,c]) and ([d]) and a cleared option 12 in between, 2 symbolic payload bytes
 //@ what=a message copied through set_from_message has the same code, the same options in ascending order and the same payload
@@ -93,7 +93,7 @@ fn c19_cm_copy_02() {
     core::mem::forget(q);
 }
 
-//@ props=C19 tier=quick timeout=1500 mem=16 cap=4
+//@ props=C19 tier=quick timeout=1500 mem=4 cap=4
 //@ functions=<Packet as MinimalWritableMessage>::set_code, <Packet as MutableWritableMessage>::{payload_mut_with_len, truncate, available_space, mutate_options}
 //@ bounds=message with option numbers 11 and 60 (concrete), symbolic values ([a],[b,c]) and ([d]), 2 symbolic payload bytes; new code byte, resize length 0..4 and truncate length 0..5 symbolic
 //@ what=set_code / payload_mut_with_len / truncate / mutate_options change exactly the raw state
